@@ -119,6 +119,27 @@ def rule_m1(prog: Program, col: Collector) -> None:
                     k = _classify_guard(f[1], D)
                     if k:
                         guards.append(k)
+            # a tolerance must be relative to the scale of the game: an absolute constant treats small-unit games as zero
+            for f in e.ctx:
+                if f[0] == "if" and _classify_guard(f[1], D) == "tolerance":
+                    b = _tolerance_bound(f[1], D)
+                    absolute = None
+                    if b is not None:
+                        absolute = not any(s2[0] in ("call", "param", "attr", "index") for s2 in subterms(b))
+                    else:
+                        for s2 in subterms(f[1]):
+                            if is_call_to(s2, *TOL_FUNCS):
+                                kw = dict(s2[3])
+                                tol = kw.get("atol", kw.get("abs_tol"))
+                                other = [a for a in s2[2] if a != D and not has_subterm(a, D)]
+                                to_zero = any(a[0] == "const" and a[1] in (0, 0.0) for a in other)
+                                if to_zero:
+                                    absolute = tol is None or not any(x[0] in ("call", "param", "attr", "index") for x in subterms(tol))
+                    if absolute is not None:
+                        col.check(not absolute, ref.where(e.node), ref.short, f"the zero-tolerance on {short(D, 40)} is relative to the scale of the game",
+                                  construct="absolute-tolerance",
+                                  necessity="np.isclose(x, 0) has an absolute tolerance of 1e-8: a game whose values are in a small unit is left un-normalised "
+                                            "while its tabulated form (or the same game in another unit) normalises to 1")
             if not derived:
                 col.check(bool(guards), ref.where(e.node), ref.short, f"division by {short(D, 50)} (a plain sum, no cancellation) is guarded against zero ({guards})",
                           construct="unguarded-division", necessity="an all-zero game must normalise to zeros, not to NaN")
